@@ -569,9 +569,10 @@ class BatteryDistributionAlgorithm:
         distribution, left_over = self._greedy_distribute_remaining_power(
             distribution, left_over
         )
-        inverter_distribution = self._distribute_multi_inverter_pairs(
+        inverter_distribution, undistributed = self._distribute_multi_inverter_pairs(
             distribution, excl_bounds, incl_bounds
         )
+        left_over += undistributed
 
         return DistributionResult(
             distribution=inverter_distribution, remaining_power=left_over
@@ -582,7 +583,7 @@ class BatteryDistributionAlgorithm:
         distribution: dict[_InverterSet, _Power],
         excl_bounds: dict[int, float],
         incl_bounds: dict[int, float],
-    ) -> dict[int, float]:
+    ) -> tuple[dict[int, float], float]:
         """Distribute power between inverters in a set for a single pair.
 
         Args:
@@ -591,9 +592,11 @@ class BatteryDistributionAlgorithm:
             incl_bounds: inclusion bounds for inverters and batteries
 
         Returns:
-            Return the power for each inverter in given distribution.
+            Return the power for each inverter in given distribution, and the power
+            that could not be assigned to any inverter of its set.
         """
         new_distribution: dict[int, float] = {}
+        undistributed: float = 0.0
 
         for inverter_ids, power in distribution.items():
             if len(inverter_ids) == 1:
@@ -614,8 +617,9 @@ class BatteryDistributionAlgorithm:
                         remaining_power -= new_power
                     else:
                         new_distribution[inverter_id] = 0.0
+                undistributed += remaining_power
 
-        return new_distribution
+        return new_distribution, undistributed
 
     def _greedy_distribute_remaining_power(
         self, distribution: dict[_InverterSet, _Power], remaining_power: float
